@@ -42,23 +42,27 @@ type mState struct {
 		Alt []int
 		Sig mSig
 		Who string
+		Chk bool // BasicChecked
 	}
 	N   int
 	Exp map[string]string `json:"exp"`
 }
 
 type mAct struct {
-	Op  string      `json:"op"`
-	F   int         `json:"f"`
-	C   string      `json:"c"`
-	K   string      `json:"k"`
-	P   string      `json:"p"`
-	Res interface{} `json:"res"`
-	Hit bool        `json:"hit"`
-	V   string      `json:"v"`
-	R   string      `json:"r"`
-	S   string      `json:"s"`
-	Hs  bool        `json:"hs"`
+	Op     string      `json:"op"`
+	F      int         `json:"f"`
+	C      string      `json:"c"`
+	K      string      `json:"k"`
+	P      string      `json:"p"`
+	Res    interface{} `json:"res"`
+	Hit    bool        `json:"hit"`
+	M      string      `json:"m"`      // blockverify: what a cache hit means for the kind ("rederive" | "trust" | "any" on a miss)
+	Accept bool        `json:"accept"` // blockverify: the block is accepted
+	Ok     bool        `json:"ok"`     // admitverdict: the basic check passed
+	V      string      `json:"v"`
+	R      string      `json:"r"`
+	S      string      `json:"s"`
+	Hs     bool        `json:"hs"`
 }
 
 func (a mAct) resString() string { s, _ := a.Res.(string); return s }
@@ -103,7 +107,7 @@ type runner struct {
 	sg          vrs
 	obj         interface{}
 	wire        []byte
-	pool        map[common.Hash]interface{}
+	pool        map[common.Hash]*poolEntry
 	vp          string
 	variant     int
 	lastInPlace string
@@ -111,6 +115,30 @@ type runner struct {
 	resigned    bool // the object was signed in place since it was decoded
 	paramMoved  bool // the verifying parameter changed since the object was decoded
 	trace       []string
+}
+
+// poolEntry is the harness's stand-in for mempoolCachedTx in the object-level replay (the real
+// mempool cache and the real block verification are driven by window.go)
+type poolEntry struct {
+	obj interface{}
+	chk bool
+}
+
+// hitMode: what a mempool-cache hit means for the kind in block verification (TxAuth!BlockVerify)
+func hitMode(k txKind) string {
+	if _, isM := k.(*kindM); isM {
+		return "trust"
+	}
+	return "rederive"
+}
+
+// sameWire: are the two objects the same transaction on the wire? (Two abstract signatures may be the
+// same bytes - e.g. s+L stands for both "high" and ">= N" of an ed25519 signature - so the question
+// "does Hash() separate different transactions" is asked of the bytes, not of the model states.)
+func (r *runner) sameWire(a, b interface{}) bool {
+	wa, ea := r.k.Encode(a)
+	wb, eb := r.k.Encode(b)
+	return ea == nil && eb == nil && bytes.Equal(wa, wb)
 }
 
 type jobStats struct {
@@ -358,7 +386,7 @@ func (r *runner) acceptClass(o interface{}) string {
 func (r *runner) start() error {
 	r.val = make([]int, len(r.k.Fields()))
 	r.altOf = map[int]int{}
-	r.pool = map[common.Hash]interface{}{}
+	r.pool = map[common.Hash]*poolEntry{}
 	r.vp = "p0"
 	r.trace = nil
 	r.lastInPlace = ""
@@ -588,8 +616,10 @@ func (r *runner) applicable(a *mAct, to *mState) bool {
 	switch r.k.(type) {
 	case *kindM:
 		switch a.Op {
-		case "mutate", "query", "redecode":
+		case "mutate", "query", "redecode", "admitput", "admitverdict":
 			return true
+		case "blockverify":
+			return !a.Hit || a.M == "trust"
 		case "sign":
 			return a.P == "p0"
 		case "mutsig":
@@ -598,9 +628,12 @@ func (r *runner) applicable(a *mAct, to *mState) bool {
 		return false
 	case *kindC:
 		switch a.Op {
-		case "admit", "blockverify":
+		case "admitput", "admitverdict", "blockverify":
 			return false
 		}
+	}
+	if a.Op == "blockverify" && a.Hit && a.M != "rederive" {
+		return false
 	}
 	return a.Op != "libvalidate"
 }
@@ -663,16 +696,33 @@ func (r *runner) step(a *mAct, to *mState) (cont bool, err error) {
 		if !r.queryObj(a.resString(), to, r.lastWhy()) {
 			return false, nil
 		}
-	case "admit":
+	case "admitput": // mempool.AddTx up to cache.Put: whatever arrives gets in, flagged unchecked
 		pooled, err := r.fresh(r.obj)
 		if err != nil {
 			return false, err
 		}
-		if got := r.senderClass(pooled, "p0"); got != "k1" && got != "k2" {
-			return false, nil // content-level mismatch, reported by observeFresh of the previous step
+		r.pool[r.k.Hash(pooled)] = &poolEntry{obj: pooled}
+	case "admitverdict": // the basic check of the pooled object: flag set, or entry removed
+		for h, ent := range r.pool {
+			if ent.chk {
+				continue
+			}
+			var got string
+			if _, isM := r.k.(*kindM); isM {
+				got = r.acceptClass(ent.obj)
+			} else {
+				got = r.senderClass(ent.obj, "p0")
+			}
+			ok := got == "k1" || got == "k2"
+			if ok != a.Ok {
+				return false, nil // content-level mismatch, reported by observeFresh when this content was the current one
+			}
+			if ok {
+				ent.chk = true
+			} else {
+				delete(r.pool, h)
+			}
 		}
-		r.pool[r.k.Hash(pooled)] = pooled
-		r.queryObj(to.Exp["p0"], to, r.lastWhy())
 	case "blockverify":
 		if r.hashStale { // already reported; a block arrives as bytes anyway
 			if o, err := r.fresh(r.obj); err == nil {
@@ -681,20 +731,29 @@ func (r *runner) step(a *mAct, to *mState) (cont bool, err error) {
 			}
 		}
 		h := r.k.Hash(r.obj)
-		c, hit := r.pool[h]
-		if hit && !a.Hit {
-			r.stats.add(finding{"tx-hash-not-covering/" + r.k.Name(), fmt.Sprintf("%s: Hash() equals the hash of the different transaction held by the mempool cache, so verifyTxsOnProcess would hand over its sender", r.k.Name()),
+		ent, found := r.pool[h]
+		if found && !r.sameWire(ent.obj, r.obj) {
+			r.stats.add(finding{"tx-hash-not-covering/" + r.k.Name(), fmt.Sprintf("%s: Hash() equals the hash of the different transaction held by the mempool cache, so block verification would take the cache's word for it", r.k.Name()),
 				r.record(map[string]interface{}{"model_signature": to.Sig, "pooled_signature": to.Pool.Sig, "pooled_alt": to.Pool.Alt})})
 			return false, nil
 		}
-		if hit {
-			from, _ := r.k.Sender(c, r.P("p0"), 1) // cacheTx.From()
+		hit := found && ent.chk // GetTxFromCache = CheckAndGet
+		if hit != a.Hit {
+			return false, nil // the verdict differed: content-level mismatch reported earlier
+		}
+		_, isM := r.k.(*kindM)
+		switch {
+		case isM: // a hit skips VerifySign; a miss runs it (compared by observeFresh below)
+		case hit:
+			from, _ := r.k.Sender(ent.obj, r.P("p0"), 1) // cacheTx.From()
 			r.k.StoreFrom(r.obj, from)
 			if !r.queryObj(a.resString(), to, "pool") {
 				return false, nil
 			}
-		} else if !r.queryObj(a.resString(), to, r.lastWhy()) {
-			return false, nil
+		default:
+			if !r.queryObj(a.resString(), to, r.lastWhy()) {
+				return false, nil
+			}
 		}
 	case "redecode":
 		o, err := r.fresh(r.obj)
